@@ -30,7 +30,11 @@ func c20Oracle(p *Plan) *Verdict {
 	}
 	v.Nontrivial = true
 	want := probeView(st)
-	for _, via := range c20Vias {
+	vias := c20Vias
+	if p.Note == "chain" {
+		vias = []string{"default-resolver"} // the reference is the same descriptor with a resolver built from all of its files
+	}
+	for _, via := range vias {
 		q := p.clone()
 		for i := range q.Config.Services {
 			q.Config.Services[i].Via = via
@@ -62,6 +66,9 @@ func init() {
 			"oracle: equal canonical outcome at the client and equal view at the backend across all variants. distinct = (scenario kind, client form, method, schedule hash); non-trivial = the request reached ServeHTTP. " +
 			"vanguardgrpc.NewTranscoder is not simulated (grpc-go's handler transport runs its own goroutines): not covered by this check",
 		Gen: func(c *Chooser, tier string) *Plan {
+			if c.Prob(0.1) {
+				return genChainPlan(c)
+			}
 			if c.Prob(0.3) {
 				// two services that are defined in one file (the run-time built sim.proto), registered in either order: each
 				// provenance builds its own descriptor instance per service, so "same file" is a matter of content, not identity
@@ -134,4 +141,47 @@ func init() {
 		Components:   stdComponents,
 		Assumptions:  []string{"dynamic messages marshal their fields in Go map order, so byte-level event logs of the variants are not compared, only decoded outcomes", "services wrapped from a grpc.Server registry (vanguardgrpc) are out of reach of the scheduler and are not covered"},
 	})
+}
+
+// genChainPlan: a schema that exists only as descriptors loaded at run time (no Go types, no global registration), whose
+// service file reaches one of its types only through an import of an import. A message carries that type by name
+// (google.protobuf.Any) and as a nested field, and has to be re-encoded between JSON and the binary codec.
+func genChainPlan(c *Chooser) *Plan {
+	jsonSide := Pick(c, "client", "backend")
+	svc := ServicePlan{Schema: "chain", MaxMsg: 1 << 20, Protocols: genSubset(c, allTargetProtocols, true)}
+	val := Pick(c, "v", "", "two words", "\u00fc")
+	detail := append([]byte{0x0a, byte(len(val))}, val...) // chain.c.Detail{s: val}
+	if val == "" {
+		detail = nil
+	}
+	anyMsg := append([]byte{0x0a, 37}, "type.googleapis.com/chain.c.Detail"...)
+	anyMsg[1] = byte(len("type.googleapis.com/chain.c.Detail"))
+	if len(detail) > 0 {
+		anyMsg = append(append(anyMsg, 0x12, byte(len(detail))), detail...)
+	}
+	mid := append([]byte{0x0a, byte(len(detail))}, detail...) // chain.b.Mid{d: Detail}
+	req := append([]byte{0x0a, byte(len(anyMsg))}, anyMsg...)
+	req = append(append(req, 0x12, byte(len(mid))), mid...)
+	reqJSON := fmt.Sprintf(`{"payload":{"@type":"type.googleapis.com/chain.c.Detail","s":%q},"mid":{"d":{"s":%q}}}`, val, val)
+	if val == "" {
+		reqJSON = `{"payload":{"@type":"type.googleapis.com/chain.c.Detail"},"mid":{"d":{}}}`
+	}
+	cp := ClientPlan{Form: Pick(c, FormConnectUnary, FormGRPC, FormGRPCWeb), HTTP: 2, Service: "chain", Method: "Echo", Accept: []string{"gzip"}}
+	ack := []byte{0x0a, 0x02, 'o', 'k'}
+	if c.Bool() {
+		ack = append(append(ack, 0x12, byte(len(anyMsg))), anyMsg...) // the response names the type too
+	}
+	if jsonSide == "client" {
+		svc.Codecs = []string{"proto"}
+		cp.Codec = "json"
+		cp.Msgs = []MsgSpec{{Data: req, RawPayload: []byte(reqJSON), HasRaw: true}}
+	} else {
+		svc.Codecs = []string{"json"}
+		cp.Codec = "proto"
+		cp.Msgs = []MsgSpec{{Data: req, RawPayload: req, HasRaw: true}}
+	}
+	bp := BackendPlan{Resp: RespPlan{Msgs: []MsgSpec{{Data: ack}}, TrailerStyle: "prefix"}}
+	p := &Plan{Config: ConfigPlan{Services: []ServicePlan{svc}}, RPCs: []RPCPlan{{Client: cp, Backend: bp}}, Sched: SchedPlan{Policy: "seq"}, Pool: PoolPlan{Policy: "lifo"}}
+	p.Note = "chain"
+	return p
 }
